@@ -114,7 +114,10 @@ pub fn run(ctx: &Ctx) -> i32 {
         let mut rng = Rng::derive(seed, 0xc10, i as u64);
         let mut cl = Classes::default();
         let n_docs = *rng.pick(&[1usize, 1, 1, 2, 3, 5]);
-        let docs: Vec<Val> = (0..n_docs).map(|_| gen_doc_for_detection(&mut rng, &mut cl)).collect();
+        let mut docs: Vec<Val> = (0..n_docs).map(|_| gen_doc_for_detection(&mut rng, &mut cl)).collect();
+        if i % 97 == 0 {
+            docs[0] = Val::Map(vec![]);
+        }
         cl.add_to(acc);
         acc.distinct(&docs.iter().map(|d| d.show()).collect::<Vec<_>>());
         acc.sample_every(1499, || json!({"documents": docs.iter().map(|d| ev::truncate(&d.show(), 120)).collect::<Vec<_>>()}));
@@ -146,9 +149,8 @@ pub fn run(ctx: &Ctx) -> i32 {
                 continue;
             }
             if f == Fmt::Toml && o.out.is_empty() {
-                // the empty table is written as nothing at all: there is no output to recognise
-                acc.count("empty_toml_output_skipped");
-                continue;
+                // the empty table is written as no bytes at all; empty input is still TOML
+                acc.count("empty_toml_outputs");
             }
             acc.count(&format!("outputs_{}_{}", f.name(), if n_docs > 1 && f != Fmt::Toml { "multi" } else { "single" }));
             let x = STREAMING[(i + f.idx()) % 3];
@@ -157,7 +159,7 @@ pub fn run(ctx: &Ctx) -> i32 {
     });
     let rule = format!("{} document sets (1-5 collection-rooted documents; maps get a first key from a pool of {} detection-hostile keys: empty, numeric-looking, quoted, YAML/TOML indicators, non-ASCII incl. U+0080-U+07FF) x 4 output formats (TOML: first document, TOML-representable); every output is offered to the detect hook as a slice and under 3 read schedules, and xt(None->X) is compared with xt(F->X) in slice and reader mode; distinct non-trivial = distinct document sets", n, FIRST_KEYS.len());
     ev::finish(
-        Finish { ctx, level: "exploration", rule, assumptions: vec!["TOML exceptions decided by the harness's hand-written JSON reader and libyaml-event reader, not by xt".into(), "an empty table is written to TOML as zero bytes and is skipped (nothing to recognise)".into()], extra: serde_json::Map::new(), exhaustive: false, min_distinct: 1000, must_reach: vec![("pipeline_equivalence_checked".into(), 1000), ("detected_toml_as_toml".into(), 100), ("detected_yaml_as_yaml".into(), 100), ("detected_msgpack_as_msgpack".into(), 100), ("detected_json_as_json".into(), 100)] },
+        Finish { ctx, level: "exploration", rule, assumptions: vec!["TOML exceptions decided by the harness's hand-written JSON reader and libyaml-event reader, not by xt".into(), "an empty table is written to TOML as zero bytes; that empty text must still be recognised as TOML".into()], extra: serde_json::Map::new(), exhaustive: false, min_distinct: 1000, must_reach: vec![("pipeline_equivalence_checked".into(), 1000), ("detected_toml_as_toml".into(), 100), ("detected_yaml_as_yaml".into(), 100), ("detected_msgpack_as_msgpack".into(), 100), ("detected_json_as_json".into(), 100)] },
         acc,
     )
 }
